@@ -548,6 +548,13 @@ class ExcelCompiler:
                     msg = ''
                 else:
                     msg = 'warning', f'Address {addr} not found in cell_map'
+                if ':' in addr and not AddressRange(addr).is_unbounded_range:
+                    # set_value() of a range writes its cells, what reads
+                    # one of them directly depends on the input as well
+                    for cell_addr in flatten(AddressRange(addr).resolve_range):
+                        cell = self.cell_map.get(cell_addr.address)
+                        if cell in self.dep_graph:
+                            walk_dependents(cell)
             except nx.exception.NetworkXError as exc:
                 if AddressRange(addr) not in output_addrs:
                     msg = 'error', f'{exc}: which usually means no outputs are dependant on it.'
